@@ -36,7 +36,8 @@ BAD = {
 OTHERS = ['-x', '--opt=value', '--opt=svc.yaml', '--file', 'word', 'two words', '', 'ünï', '=', '--', '-', 'notes.txt', 'file.ini', 'missing.yaml', 'missing', 'svc', 'svc.', '.yaml',
           'dir/', 'dir', 'a=b.json', '--config=db.json', 'svc.test', 'notes.txt.yaml']
 GOOD_ARGS = ['svc.yaml', 'svc.test.toml', 'svc.test.eu.json', 'db.json', 'plain.yml', 'svc.json', 'svc.toml', 'svc.test.json', 'svc.test.yaml', 'svc.test.yml', 'svc.test.jsonl', 'svc.test.json-pretty',
-             'db.yaml', 'db.toml', 'plain.json', './svc.yaml', 'sub/../svc.test.toml', 'svc.test.eu.yaml', 'svc.test.eu.toml']
+             'db.yaml', 'db.toml', 'plain.json', './svc.yaml', 'sub/../svc.test.toml', 'svc.test.eu.yaml', 'svc.test.eu.toml',
+             'sub/svc.yaml', 'dir/svc.yaml', 'sub/svc.json', 'dir/db.json', 'sub/db.json', 'dir/svc.toml']
 BAD_ARGS = ['bad-required.yaml', 'bad-required.json', 'orphan.child.yaml', 'bad-parent.yaml', 'bad-parent.toml', 'syntax.json', 'syntax.yaml']
 
 
@@ -64,6 +65,8 @@ def fixed_cases(tier):
     out.append({'argv': ['-v', 'svc.yaml', '--mode=fast', 'svc.json', 'notes.txt'], 'via': 'bklb', 'exit': 0})
     out.append({'argv': ['svc.test.toml', 'svc.test.json', 'svc.test.yaml', 'svc.test.toml'], 'via': 'kubectl-bkl', 'exit': 5})
     out.append({'argv': ['-v', 'svc.yaml', 'orphan.child.yaml', 'notes.txt'], 'via': 'bklb', 'exit': 0})
+    out.append({'argv': ['-f', 'sub/svc.yaml', '-f', 'dir/svc.yaml', 'svc.yaml', '--dry-run'], 'via': 'bklb', 'exit': 0})
+    out.append({'argv': ['dir/db.json', 'sub/db.json', 'db.json'], 'via': 'kubectl-bkl', 'exit': 0})
     return out
 
 
@@ -86,6 +89,12 @@ def setup(d):
         f.write('[x]\ny=1\n')
     os.makedirs(os.path.join(d, 'dir'))
     os.makedirs(os.path.join(d, 'sub'))
+    # same base names in other directories, different content
+    for sub, doc in (('sub', {'where': 'sub', 'port': 1}), ('dir', {'where': 'dir', 'port': 2})):
+        with open(os.path.join(d, sub, 'svc.yaml'), 'w') as f:
+            f.write(ser.write('yaml', [doc], None, 'quoted'))
+        with open(os.path.join(d, sub, 'db.json'), 'w') as f:
+            f.write(ser.write('json', [dict(doc, db=True)]))
     os.makedirs(os.path.join(d, 'tmp'))
     os.makedirs(os.path.join(d, 'pathdir'))
 
